@@ -22,8 +22,7 @@ def run(c):
         "rolled back on error (internal/sqlite/engine.go; that serialisation is C17's subject and is only exercised here by the race cases)",
         "SQLite is trusted: PRIMARY KEY/UNIQUE enforcement, AUTOINCREMENT, statement atomicity; the model encodes UNIQUE(namespace_id,type,name) as an explicit check",
         "strings are opaque tokens (names are pairs namespace-part/local-part); versions in requests are >= 0 (a negative version matches nothing, like any unused one)",
-        "requests whose type differs from the stored row's type are generated and modelled (model = code), but the namespace-rename and "
-        "namespace-reference oracles skip rows touched by such a request: SaveEntity never compares the request type with the row type",
+        "requests whose type differs from the stored row's type are generated: the typed row selection of SaveEntity must reject them (model = code, oracle edit-foreign-type-accepted)",
     ]
     c.prove("SH.Props.C15", extra_files=["SH/Model/Meta.lean"])
     drv = c.driver(DRIVER)
@@ -80,9 +79,10 @@ META = {
     "text": ("Kernel-checked for every history of requests: an edit succeeds only from the entity's current version; every successful save "
              "gets max(previous versions)+1, so versions are globally unique and strictly increasing; once an edit from version v succeeded no "
              "later request naming v can succeed (at most one winner in any schedule) and k otherwise-valid racing edits have exactly one winner, also when the racing requests differ in name/data/metadata (one_winner quantifies over arbitrary requests); "
-             "(namespace_id,type,name) stays unique; namespaces: one SaveEntity leaves every namespace row in place with its name unless the request aims a foreign type at its id "
-             "(namespace_rename_only_by_foreign_type, the strongest true statement), hence along every history of well-typed requests every namespace keeps "
-             "id, type and name forever (namespace_not_renamable); a namespaced metric/group gets the id of an "
+             "(namespace_id,type,name) stays unique; an edit is applied only to a row of the request's own type (edit_preserves_type) and a request of a foreign type is rejected "
+             "and changes nothing (foreign_type_edit_rejected); namespaces, FULL STRENGTH: whatever one SaveEntity does every namespace row keeps id, type and "
+             "name (namespace_keeps_name) and so along ANY history, with no condition on the requests (namespace_not_renamable); no entity ever changes its "
+             "type (entity_type_never_changes); a namespaced metric/group gets the id of an "
              "existing namespace row and that reference never dangles; the journal is strictly ascending by version, lists every entity at most "
              "once at its current version, is a prefix of the full list and paging from the last delivered version continues exactly where it stopped. Long-poll (rpc_handler.go): every reply of broadcastJournal is non-empty, strictly ascending, "
              "only versions newer than that client's From, contains every current row between its From and the returned CurrentVersion; a "
@@ -92,10 +92,11 @@ META = {
              "builtin-namespace-rename.ops): a namespace request with the create flag for an EXISTING builtin (negative id) namespace is turned into an "
              "edit by SaveEntity but skipped checkNamespace, so it renames the namespace. The model and the theorems describe the code with "
              "fixes/C15-builtin-namespace-rename.diff applied (Variant.fixed); Variant.old reproduces the pinned tree and the violation is a `decide` "
-             "example in Props/C15. FINDING reported, modelled (model = code), not alarmed on: neither RawEditEntity nor SaveEntity compares the request's "
-             "EventType with the row's type, so metadata.editEntitynew with type metric aimed at a namespace's id+version overwrites and RENAMES the namespace row "
-             "(replayed through the real rpc Handler: corpus/C15/type-mismatch-namespace-rename.ops; Lean witness next to namespace_not_renamable; proposed fix "
-             "fixes/C15-edit-type-mismatch.proposal.diff). namespace_not_renamable therefore carries the hypothesis WellTypedHistory, and the oracles skip rows "
-             "touched by a type-mismatched request (counted as save.ok.namespace-renamed-by-foreign-type)."),
+             "example in Props/C15. SECOND DEFECT, fixed by commit fb668983 (fixes/C15-edit-type-mismatch.proposal.diff, adopted): the edit path selected the row by "
+             "(id, version) only, so metadata.editEntitynew of a foreign type aimed at a namespace's id renamed the namespace through the real rpc Handler. "
+             "The model now has the type test (Variant.fixed); Variant.untyped / Variant.old reproduce the earlier trees with `decide` witnesses of both renames. "
+             "corpus/C15/type-mismatch-namespace-rename.ops stays as a regression (the request is now answered invalid-version). The oracle has no tolerance "
+             "left: any rename of a namespace row (namespace-renamed), any accepted edit of a foreign type (edit-foreign-type-accepted) and any change of a stored "
+             "or reported type (entity-type-changed) is a violation. Still not proved: uniqueness of (type, name) irrespective of namespace_id."),
     "design_ref": "DESIGN.md §6 C15",
 }
